@@ -77,24 +77,37 @@ structure Cfg where
   hashIterative : Bool
   /-- `Hash for SteelVal` stops at a slot / cell that it is already hashing (cycle) -/
   hashCycleSafe : Bool
-  /-- Display of `Boxed` / `HeapAllocated` / `HashMapV` / `HashSetV` continues with the running depth counter
-      and cycle table instead of calling `Display for SteelVal` again -/
-  printNoReentry : Bool
-  /-- kinds without a `Drop` impl (pair, strong box, closure, hash set) are released through the worklist -/
-  dropAllIterative : Bool
+  /-- Display of `Boxed` / `HeapAllocated` continues with the running depth counter and cycle table instead of
+      calling `Display for SteelVal` again -/
+  printBoxNoReentry : Bool
+  /-- the same for `HashMapV` / `HashSetV` (they print through `{:#?}` of the collection) -/
+  printMapNoReentry : Bool
+  /-- pairs and hash sets are released through the worklist (`impl Drop` that starts the drop handler) -/
+  dropPairSetIterative : Bool
+  /-- closure captures and strong boxes are released through the worklist -/
+  dropClosureBoxIterative : Bool
   deriving DecidableEq, Repr
 
 /-- the configuration for which the property holds -/
 def Cfg.fixed : Cfg :=
   { eqBoxVisited := true, eqMixVecVisited := true, eqKeysIterative := true, markSboxVisited := true,
     markImmVisited := true, ccSboxMutable := true, ccTracksAlways := true, hashIterative := true,
-    hashCycleSafe := true, printNoReentry := true, dropAllIterative := true }
+    hashCycleSafe := true, printBoxNoReentry := true, printMapNoReentry := true, dropPairSetIterative := true,
+    dropClosureBoxIterative := true }
 
-/-- the code as it is at the pinned revision (checked against the source by `GenTraversals.lean`) -/
-def Cfg.current : Cfg :=
+/-- the code as it was when this check was written (before the repairs 35ea4f4c, fffa6bd3, 31703dd1) -/
+def Cfg.legacy : Cfg :=
   { eqBoxVisited := false, eqMixVecVisited := false, eqKeysIterative := false, markSboxVisited := false,
     markImmVisited := false, ccSboxMutable := false, ccTracksAlways := false, hashIterative := false,
-    hashCycleSafe := false, printNoReentry := false, dropAllIterative := false }
+    hashCycleSafe := false, printBoxNoReentry := false, printMapNoReentry := false, dropPairSetIterative := false,
+    dropClosureBoxIterative := false }
+
+/-- the code as it is (checked against the source by `GenTraversals.lean` on every run): the equality worklist
+    remembers box pairs and vector / mutable-vector pairs, boxes are printed in place, strong boxes switch cycle
+    recording on, pairs and hash sets have a `Drop` that starts the drop handler -/
+def Cfg.current : Cfg :=
+  { Cfg.legacy with eqBoxVisited := true, eqMixVecVisited := true, ccSboxMutable := true, printBoxNoReentry := true,
+                    dropPairSetIterative := true }
 
 /-! ## Loops -/
 
@@ -374,7 +387,8 @@ def height (g : Graph) : Nat → Nat → Nat
 
 /-- kinds whose Display calls `Display for SteelVal` again (fresh depth counter, fresh cycle table) -/
 def printReenters (c : Cfg) : Kind → Bool
-  | .box | .sbox | .map | .set => !c.printNoReentry
+  | .box | .sbox => !c.printBoxNoReentry
+  | .map | .set => !c.printMapNoReentry
   | _ => false
 
 def printLimit : Nat := 128
@@ -393,7 +407,8 @@ def printDepth (c : Cfg) (g : Graph) : Nat → Nat → Nat → Nat
 
 /-- kinds that have no `Drop` impl of their own: released by the compiler-generated recursive drop glue -/
 def dropNativeKind (c : Cfg) : Kind → Bool
-  | .pair | .sbox | .closure | .set => !c.dropAllIterative
+  | .pair | .set => !c.dropPairSetIterative
+  | .sbox | .closure => !c.dropClosureBoxIterative
   | _ => false
 
 /-- native frames of dropping the last reference to `v`: recursive glue until a kind with a `Drop` impl hands
@@ -439,7 +454,7 @@ def Op.iterativeIn (c : Cfg) : Op → Bool
   | .hash => c.hashIterative
   | .collect | .mark | .send => true
   | .print => false               -- recursion below the depth limit
-  | .drop => c.dropAllIterative
+  | .drop => c.dropPairSetIterative && c.dropClosureBoxIterative
 
 /-! ## Shapes -/
 
